@@ -467,3 +467,9 @@ def run(ctx, rep):
             f(ctx, rep)
         except Unsupported as u:
             rep.undecided(rule, f.__name__, f"line {getattr(u.node, 'lineno', 0)}", str(u))
+    # C20.O — the integrated coalescent and the sufficient statistics sort the events of every sample themselves (order-kind analysis of sa/orders.py)
+    from sa import orders
+    from sa.report import RuleProxy
+    rep.rule('C20.O', "integrated coalescent / sufficient statistics: vectors in input order and in sorted order are kept apart, and every sample of a batch is sorted with its own permutation")
+    orders.check_orders(ctx, RuleProxy(rep, 'C20.O', ''), 'C20.O', 'torchtree.evolution.coalescent', floor=3,
+                        only=lambda cname, fn: 'Integrated' in cname or fn.name in ('sufficient_statistics', '_sorted_terms', 'maximum_likelihood'))
